@@ -280,7 +280,11 @@ pub fn run(tier: &str) -> i32 {
     // ---- time constructors: the strict rendering grid
     let dates: [(i64, i64, i64); 8] = [(1971, 1, 1), (2000, 2, 29), (2024, 2, 29), (2026, 6, 15), (2029, 12, 31), (9000, 6, 15), (1, 1, 1), (9999, 12, 31)];
     let times = ["00:00:00", "00:00:01", "12:34:56", "19:08:07", "23:59:59"];
-    let fracs = ["", ".0", ".5", ".12", ".123", ".1234", ".12345", ".123456", ".1234567", ".12345678", ".123456789", ".000000001", ".999999999"];
+    let fracs = [
+        "", ".0", ".5", ".12", ".123", ".1234", ".12345", ".123456", ".1234567", ".12345678", ".123456789", ".000000001", ".999999999",
+        // more digits than a nanosecond, incl. values that round up to the next second
+        ".1234567891", ".0000000000", ".9999999994", ".9999999995", ".9999999999", ".999999999999", ".99999999999999999999", ".50000000000000000000000000000001",
+    ];
     let mut offs: Vec<String> = vec!["Z".to_string()];
     for o in rfc3339::all_offsets() {
         offs.push(format!("{}{:02}:{:02}", if o < 0 { '-' } else { '+' }, o.abs() / 3600, o.abs() % 3600 / 60));
@@ -298,6 +302,10 @@ pub fn run(tier: &str) -> i32 {
             let s = format!("{:04}-{:02}-{:02}T{}{}{}", y, m, d, times[*ti], f, o);
             let must = match rfc3339::parse(&s) {
                 Some((Class::Strict, _)) => Some(true),
+                // the grammar puts no bound on the number of fraction digits (time-secfrac = "." 1*DIGIT): with
+                // upper-case T and Z such a string is an RFC 3339 date-time the constructors must keep. (R4 calls
+                // it lenient only because the *instant* beyond nanoseconds is read differently by parsers.)
+                Some((Class::Lenient, _)) if f.len() > 10 => Some(true),
                 Some((Class::Lenient, _)) => None,
                 None => crate::report::machinery_error("the rendering grid produced a string R4 does not read"),
             };
@@ -343,7 +351,7 @@ pub fn run(tier: &str) -> i32 {
         crate::report::machinery_error("C18: nothing was constructed (vacuous)");
     }
     let extra = json!({
-        "space": "custom keys: every string of length 0..=4 over {e,x,p,E,i,s,blank,NUL} (4 681) + decorated variants of the 7 registered keys + Unicode keys, x 3 constructor forms x 6 value types (string, integer, boolean, JSON value, a map without JSON form, a value whose Serialize fails); time constructors: 8 dates x 5 times x 13 fraction forms x 2 881 offsets x 3 claims x {&str, String}; strings that do not start with an ISO 8601 date",
+        "space": "custom keys: every string of length 0..=4 over {e,x,p,E,i,s,blank,NUL} (4 681) + decorated variants of the 7 registered keys + Unicode keys, x 3 constructor forms x 6 value types (string, integer, boolean, JSON value, a map without JSON form, a value whose Serialize fails); time constructors: 8 dates x 5 times x 21 fraction forms (0-9 digits and 10-32 digits incl. values rounding up to the next second) x 2 881 offsets x 3 claims x {&str, String}; strings that do not start with an ISO 8601 date",
         "time_grid_offset_stride": stride,
         "distinct_rule": "distinct (key, form, value type) and distinct time strings",
         "caps_hit": if quick { json!(["quick: every 13th UTC offset in the time-constructor grid"]) } else { json!([]) },
